@@ -1,9 +1,37 @@
 """C10 - see DESIGN.md 5/C10.  spec/WampSession.tla (TLC: all histories up to the bound) + seeded random histories of a real
-ApplicationSession on Twisted Deferreds and asyncio Futures validated by spec/WampSessionTrace.tla (profile "c10")."""
+ApplicationSession on Twisted Deferreds and asyncio Futures validated by spec/WampSessionTrace.tla (profile "c10"), plus every endpoint
+behaviour through the four real transports against a scripted router (WampSessionTrace.TInvReal)."""
+from harness import common, tlc
 from harness.props import sess_common
+
+BEHS = ("value", "callresult", "none", "unserializable", "oversize", "apperror", "mapped", "unmapped")
+
+
+def real_transports(res):
+    """every endpoint behaviour x sync/async x progress asked or not x {WebSocket, RawSocket} x {json, msgpack, cbor} x {Twisted, asyncio}:
+    a real ApplicationSession on a real client transport against the scripted router; WampSessionTrace.TInvReal judges the wire"""
+    cases = [[k, s, b, a, rp] for k in ("ws", "rs") for s in ("json", "msgpack", "cbor") for b in BEHS for a in (False, True) for rp in (False, True)]
+    jobs = [("invreal_drv", [], common.driver_env(fw=fwn, seed=res.seed), dict(cases=cases)) for fwn in ("tx", "aio")]
+    outs = common.run_drivers_parallel(jobs)
+    traces, meta = [], []
+    for o in outs:
+        res.count(o["cases"])
+        for t in o["traces"]:
+            traces.append(t)
+            meta.append(o["fw"])
+            e = t[0]
+            res.distinct_key([o["fw"], "real", e["kind"], e["ser"], e["beh"], e["isAsync"], e["rp"]])
+    v = tlc.validate_traces("WampSessionTrace", "WampSessionTrace.cfg", traces, shards=4)
+    res.traces += v["n"]
+    for idx, l in v["rejected"][:25]:
+        res.classify("c10-real-%s-%d" % (meta[idx], idx), dict(fw=meta[idx], event=traces[idx][0], spec="WampSessionTrace.TInvReal"))
+    if len(traces) < 350:
+        raise common.MachineryError("too few real-transport invocation cases")
+    res.extra["real_transport_cases"] = len(traces)
 
 
 def run(res):
     thorough = res.tier == "thorough"
     sess_common.run_profile(res, "c10", 2500 if thorough else 700, 6 if thorough else 3, "c10",
                             "MC_WampSession_deep.cfg" if thorough else "MC_WampSession.cfg")
+    real_transports(res)
